@@ -17,6 +17,7 @@ mod bag;
 mod conc;
 mod real;
 mod reg;
+mod serde_rt;
 
 use std::io::Write;
 use std::str::FromStr;
@@ -265,6 +266,9 @@ impl<const IV: u64> Sys<IV> {
         let w: Vec<&str> = op.split_whitespace().collect();
         let inst = |s: &str| s.parse::<usize>().expect("instance");
         match w.as_slice() {
+            // C06: the stored form of a krill command / event / change reads back what was written
+            // (independent of the stores; see serde_rt.rs)
+            ["serde", ty, shape] => serde_rt::run(ty, shape),
             ["conclog", _] => "ev=-".into(),
             // not generated, no model: manual experiments only (`AggregateStore::warm` / `list`)
             ["warm", i] => {
@@ -719,6 +723,13 @@ fn main() {
             // a `process::exit` inside the code under test must not lose the cases before
             out.flush().unwrap();
         }
+        // one more case: the serde round trip of every registered stored form in its boundary shapes
+        writeln!(out, "case s{}-serde-mem-iv1", args.seed).unwrap();
+        writeln!(out, "config iv=1 backend=mem => ret=ok").unwrap();
+        for (ty, shape) in serde_rt::ALL {
+            writeln!(out, "serde {ty} {shape} => {}", serde_rt::run(ty, shape)).unwrap();
+        }
+        out.flush().unwrap();
     }
     out.flush().unwrap();
 }
